@@ -160,10 +160,15 @@ impl EventSource for Timer {
     }
 
     fn register(&mut self, poll: &mut Poll, token_factory: &mut TokenFactory) -> crate::Result<()> {
+        // The sub-token is taken even if there is no deadline to register: the tokens handed to
+        // the sources registered after this one by the same parent must not depend on whether
+        // this timer happens to be armed, or arming it later (`set_duration()` and a
+        // re-registration) would shift them all while events for the old ones may already have
+        // been collected.
+        let token = token_factory.token();
         // Only register a deadline if we haven't overflowed.
         if let Some(deadline) = self.deadline {
             let wheel = poll.timers.clone();
-            let token = token_factory.token();
             let counter = wheel.borrow_mut().insert(deadline, token);
             self.registration = Some(Registration {
                 token,
